@@ -380,6 +380,7 @@ def run_scenario(scen, scratch, timeout=60):
     sp.write_text(json.dumps(scen))
     env = dict(os.environ)
     env['PYTHONDONTWRITEBYTECODE'] = '1'
+    env['TMPDIR'] = str(d)          # the child's own base directory lives inside the check's scratch root, also when it is killed
     try:
         r = subprocess.run(['/venv/bin/python', str(HERE / 'harness_real.py'), str(sp), str(op)], capture_output=True, text=True,
                            timeout=timeout, env=env, start_new_session=True)
